@@ -125,7 +125,7 @@ def str_method(ev, recv, meth, args, kwargs, node):
                 ev.unsupported(node, "strip with symbolic chars")
         s = z3.simplify(t)
         if z3.is_string_value(s):
-            return VStr(getattr(s.as_string(), meth)(chars), isb)
+            return VStr(getattr(py_string(s), meth)(chars), isb)
         return VStr(_strip_fun(ev, t, chars, side), isb)
     if meth == "encode":
         enc = const_str(args[0]) if args else (const_str(kwargs["encoding"]) if "encoding" in kwargs else "utf-8")
@@ -148,7 +148,7 @@ def str_method(ev, recv, meth, args, kwargs, node):
         if encn in ("utf8", "utf-8"):
             s = z3.simplify(t)
             if z3.is_string_value(s):
-                return VStr(s.as_string().encode("utf-8"))
+                return VStr(py_string(s).encode("utf-8"))
             r = ufunc("utf8_encode", S, S)(t)
             st.assume(z3.Length(r) >= z3.Length(t))
             st.assume(z3.Implies(z3.InRe(t, ASCII), r == t))
@@ -228,7 +228,7 @@ def str_method(ev, recv, meth, args, kwargs, node):
         s = z3.simplify(t)
         a0, a1 = const_str(args[0]), const_str(args[1])
         if z3.is_string_value(s) and a0 is not None and a1 is not None:
-            return VStr(s.as_string().replace(a0, a1), isb)
+            return VStr(py_string(s).replace(a0, a1), isb)
         return VStr(ufunc("replace_all", S, S, S, S)(t, args[0].t, args[1].t), isb)
     if meth == "join":
         items = ev.iter_concrete(args[0], node) if not isinstance(args[0], VFunc) else None
